@@ -46,9 +46,12 @@ Definition set_tc (s : stream) (r : ref) := mkstream (imol s) r (price s) (cf s)
    object of its own: link_with can make two indexers hold the SAME dict, unlink gives the indexer a new empty one,
    _expand_phases clears it in place.  It is modelled as a second layer over the heap: [cmap] binds an indexer
    reference to the number of its dict (an indexer without binding has a private dict that nothing else holds and
-   that is still empty), [caches] gives for every dict the rows its 'mass' view wraps (None = no 'mass' entry).
+   that is still empty), [caches] gives for every dict its 'mass' view (None = no 'mass' entry).
    The view wraps the row OBJECTS that were the data of the indexer when the view was created. *)
-Record state := mkstate { hp : heap; ss : list stream; cmap : list (ref * nat); caches : list (option (list ref)) }.
+(* a 'mass' view: the row objects it wraps, and the phase it was built with: the Phase OBJECT of the indexer for a
+   ChemicalIndexer (so it follows later writes into that box), the phases tuple (a value) for a MaterialIndexer *)
+Record view := mkview { v_rows : list ref; v_pb : option ref; v_phs : list nat }.
+Record state := mkstate { hp : heap; ss : list stream; cmap : list (ref * nat); caches : list (option view) }.
 
 (* ---------- phases: 'L'=0 'S'=1 'g'=2 'l'=3 's'=4 (ASCII order); 'G'=5, 'q'=6, 'Q'=7 are not valid ---------- *)
 Definition valid_phase (p : nat) : bool := Nat.leb p 4%nat.
@@ -603,17 +606,23 @@ Fixpoint lookup (r : ref) (m : list (ref * nat)) : option nat :=
 Definition unbind (r : ref) (m : list (ref * nat)) : list (ref * nat) :=
   filter (fun kc => negb (Nat.eqb (fst kc) r)) m.
 (* rows wrapped by the 'mass' view in the dict of indexer r, if there is one *)
-Definition view_of (st : state) (r : ref) : option (list ref) :=
+Definition view_of (st : state) (r : ref) : option view :=
   match lookup r (cmap st) with Some c => nth c (caches st) None | None => None end.
 (* by_mass: the cached view, else a new view over the current data rows, stored in the dict *)
+Definition new_view (h : heap) (s : stream) : view :=
+  match nth_error h (imol s) with
+  | Some (CIdxC _ pb d) => mkview [d] (Some pb) []
+  | Some (CIdxM _ phs d) => mkview (rdrows h d) None phs
+  | _ => mkview [] None []
+  end.
 Definition by_mass (st : state) (s : stream) : state * list ref :=
   match view_of st (imol s) with
-  | Some rows => (st, rows)
+  | Some v => (st, v_rows v)
   | None =>
-    let rows := data_rows (hp st) s in
+    let v := new_view (hp st) s in
     match lookup (imol s) (cmap st) with
-    | Some c => (mkstate (hp st) (ss st) (cmap st) (upd (caches st) c (Some rows)), rows)
-    | None => (mkstate (hp st) (ss st) ((imol s, length (caches st)) :: cmap st) (caches st ++ [Some rows]), rows)
+    | Some c => (mkstate (hp st) (ss st) (cmap st) (upd (caches st) c (Some v)), v_rows v)
+    | None => (mkstate (hp st) (ss st) ((imol s, length (caches st)) :: cmap st) (caches st ++ [Some v]), v_rows v)
     end
   end.
 (* imol._data_cache = {} *)
@@ -692,8 +701,13 @@ Definition set_mass_step (st : state) (i r c : nat) (v : Q) : state * option err
   end.
 (* what s.imass reads: the cached view's rows (or the current rows) times MW *)
 Definition mass_obs (st : state) (s : stream) : list vec :=
-  let rows := match view_of st (imol s) with Some rows => rows | None => data_rows (hp st) s end in
+  let rows := match view_of st (imol s) with Some v => v_rows v | None => data_rows (hp st) s end in
   map (fun r => vmul (rdvec (hp st) r) (mw_vec (pkg_at (hp st) (imol s)))) rows.
+
+(* the phase(s) s.imass reports: through the Phase object / the tuple the view was built with *)
+Definition mass_phases (st : state) (s : stream) : list nat :=
+  let v := match view_of st (imol s) with Some v => v | None => new_view (hp st) s end in
+  match v_pb v with Some pb => [rdphase (hp st) pb] | None => v_phs v end.
 
 Definition step (st : state) (o : op) : state * option err :=
   match o with
@@ -777,11 +791,12 @@ Definition PK : list (list nat) := [[0; 1; 2]; [2; 0; 3; 1]]%nat.
 Definition MWS : list Q := [16; 32; 8; 4].
 Definition init : state := mkstate [] [] [] [].
 Definition run_eqb (ops : list op) (res : list (option err)) (final : list sobs)
-           (mass keyed : list (list vec)) : bool :=
+           (mass keyed : list (list vec)) (mphases : list (list nat)) : bool :=
   let (st, es) := run PK MWS init ops in
   let snap := snapshot st in
   list_eqb oerr_eqb es res && list_eqb sobs_eqb snap final
   && list_eqb (list_eqb vapproxb) (map (mass_obs PK MWS st) (ss st)) mass
-  && list_eqb (list_eqb vapproxb) (map o_rows snap) keyed.
+  && list_eqb (list_eqb vapproxb) (map o_rows snap) keyed
+  && list_eqb (list_eqb Nat.eqb) (map (mass_phases st) (ss st)) mphases.
 Definition run_show (ops : list op) :=
   let (st, es) := run PK MWS init ops in (es, snapshot st, map (mass_obs PK MWS st) (ss st), hp st, cmap st, caches st).
